@@ -24,6 +24,7 @@ import time
 VERIF = os.path.dirname(os.path.dirname(os.path.abspath(__file__)))
 REPO = os.environ.get("VERIF_REPO", "/repo")
 SCRATCH_ROOT = os.environ.get("VERIF_SCRATCH", "/var/tmp")
+IFACE_CHECKED = {}
 JOBS = int(os.environ.get("VERIF_JOBS", str(os.cpu_count() or 4)))
 MEM_KB = int(os.environ.get("VERIF_MEM_KB", str(12 * 1024 * 1024)))
 VERBOSE = os.environ.get("VERIF_VERBOSE", "0") != "0"
@@ -302,6 +303,16 @@ class UnitBuild:
             dst = os.path.join(self.scratch, "include", hr["as"])
             os.makedirs(os.path.dirname(dst), exist_ok=True)
             open(dst, "w").write(text)
+        # native check of the declared descriptor interface against the real headers (once per run)
+        tu_text = open(os.path.join(u["dir"], u["tu"])).read()
+        if "repo/expdict_iface.h" in tu_text and not IFACE_CHECKED.get("done"):
+            cmd = ["g++", "-std=c++11", "-fsyntax-only", "-w", "-I" + os.path.join(REPO, "include"),
+                   "-I" + os.path.join(REPO, "include", "stepcode"), "-I" + self.binc, "-I" + os.path.join(REPO, "src", "base"),
+                   os.path.join(VERIF, "stubs", "repo", "iface_check.cc")]
+            rc, out, err, secs = run(cmd, 300)
+            if rc != 0:
+                raise Undecided("declared descriptor interface (stubs/repo/expdict_iface.h) does not match the real headers: " + (out + err)[-1500:])
+            IFACE_CHECKED["done"] = True
         # function-level extraction
         for ex in u.get("extract", []):
             text = extract_functions(os.path.join(REPO, ex["file"]), ex["functions"], ex.get("preamble", "includes"))
